@@ -150,6 +150,35 @@ def gen_placed_dtor(r):
     return {'n0': n0, 'budget': 2500, 'finalq': 0, 'progs': [ops], 'sched': [1] * (3 * n0 + r.choice([0, 1, 2])) + [0] * 60 + bursts(r, 30)}
 
 
+def cross_steal_probe(n0, k, j=1):
+    """deterministic probe (pool with two steal-ring groups, n0 in {9, 12, 16}): reach the CROSS-RING steal of tryFindAndExecuteWork.
+    All workers are put to sleep; TaskSet::scheduleBulk(8) gives workers 0..7 (all of group 0) one task each from their own ring
+    (preferRing = true); each is driven to the park right after its batch flush (awake, counted as working) while the producer is held
+    (h8); the producer's schedulePlaced then finds the only sleepers in group 1, claims one and pushes into steal ring 1; group-0 worker
+    number j is granted next: it spins past kCrossRingFailThreshold and pops steal ring 1 ("pool.pop.steal" site 1).  Tail = public-effect
+    probe: with exactly floor(1.5 n0) + 1 tasks pending, a pool-recursive schedule() must run its task inline (as on a fresh pool)."""
+    qlf = n0 + n0 // 2
+    sched = [1] * (2 * n0) + [0] * k
+    for i in range(8):
+        sched += [i] * 4           # producer held: cands = woken workers, index i = worker i; 4 grants: pop, body.begin, body.end, flush
+    sched += [0] * 4 + [j] + [0] * 600
+    return {'name': 'cross-steal-%d' % n0, 'n0': n0, 'budget': 9000, 'finalq': 1, 'qlf': qlf,
+            'progs': [['t8', 'h8', 'p0', 'q', 'f1'] + ['f0'] * qlf + ['q']], 'sched': sched}
+
+
+def gen_big(r):
+    """pools with two steal-ring groups (more than kStealRingSharing = 8 threads): short programs, placed submissions biased"""
+    n0 = r.choice([9, 12, 16])
+    np_ = r.choice([1, 2])
+    progs = []
+    for i in range(np_):
+        ops = [r.choice(['p0', 'p0', 'p1', 'P3', 'f0', 's0', 't%d' % r.choice([3, 8, n0]), 'b5']) for _ in range(r.randint(1, 3))]
+        if i == 0 and r.random() < 0.3:
+            ops.append('r%d' % r.choice([4, 9, 10]))
+        progs.append(ops)
+    return {'n0': n0, 'budget': 6000, 'finalq': r.choice([0, 1, 1]), 'progs': progs, 'sched': [1] * r.choice([0, n0, 2 * n0]) + bursts(r, 80)}
+
+
 def gen_overflow(r):
     """boundary case: more ring-path submissions to ring 0 than its capacity while the workers are kept from popping (producers run
     first; several task sets, because one set stops using the ring path beyond its load factor 4 * threads), so that try_push fails and
@@ -188,6 +217,8 @@ WITNESSES = [
     {'name': 'C03-strand-central', 'n0': 2, 'budget': 900, 'progs': [['f0', 'q'], ['r0']], 'sched': [0, 0] + [1] * 45 + [0] * 150},
     # C01: a task sitting in a steal ring when ~ThreadPool starts is run by the destructor's steal-ring drain; its body calls pool.schedule():
     # the child is enqueued centrally after the destructor's last central drain and is never run
+    # cross-ring steal + public-effect probes on pools with two steal-ring groups (see cross_steal_probe)
+    cross_steal_probe(9, 12, 1), cross_steal_probe(12, 12, 2), cross_steal_probe(16, 11, 1),
     {'name': 'C01-dtor-drain-reschedules', 'n0': 1, 'budget': 900, 'finalq': 0, 'progs': [['p1']], 'sched': [1] * 5 + [0] * 120},
 ]
 
@@ -198,7 +229,7 @@ def run_pool(ctx, prop):
     ctx.phase('build')
     r = ctx.rng
     n = 300 if ctx.quick else 6000
-    cases = list(WITNESSES) + [gen_overflow(r) if i % 50 == 3 else gen_batched(r) if i % 25 == 13 else gen_placed_dtor(r) if i % 25 in (7, 17) else gen_case(r) for i in range(n)]
+    cases = list(WITNESSES) + [gen_overflow(r) if i % 50 == 3 else gen_big(r) if i % 30 == 11 else gen_batched(r) if i % 25 == 13 else gen_placed_dtor(r) if i % 25 in (7, 17) else gen_case(r) for i in range(n)]
     outs = ls_common.run_cases(exe, [line_of(c) for c in cases], jobs=10)
     ctx.phase('run')
     kept, terms = [], []
@@ -273,19 +304,21 @@ def report(ctx, prop, rows, describe):
     ctx.cov['evaluations'] += len(rows)
     ctx.cov['distinct_nontrivial'] += len(distinct)
     ctx.cov['rule'] = ('generated programs (1-3 enrolled producers x 1-4 ops of schedule / schedule(Force) / scheduleBulk / TaskSet::scheduleBulk / schedulePlaced / '
-                       'scheduleBulkPlaced / resize / quiescence-wait, pool sizes 0..5, pool-recursive bodies) x burst decision lists, one fork per case with the '
+                       'scheduleBulkPlaced / resize / quiescence-wait, pool sizes 0..5 and 9/12/16 (two steal-ring groups), pool-recursive bodies) x burst decision lists, one fork per case with the '
                        "pool's own workers enrolled in the cooperative scheduler; non-trivial = more than 12 events; distinct = distinct event traces")
     ctx.cov['verdict_histogram'] = {'accepted_and_holds': hist.get(0, 0), 'disagree_property_holds': hist.get(1, 0), 'violation': hist.get(2, 0),
                                     'inconclusive_budget': hist.get(3, 0), 'violation_in_known_domain': hist.get(4, 0)}
     ctx.cov['traces_validated_against_impl'] += hist.get(0, 0) + hist.get(4, 0)
     ctx.cov['events_total'] = sum(len(p['events']) for _, p, _, _ in rows)
     ctx.cov['timeout_steps_total'] = sum(p['timeouts'] for _, p, _, _ in rows)
-    ctx.cov['pool_size_histogram'] = {str(k): sum(1 for c, _, _, _ in rows if c['n0'] == k) for k in range(6)}
+    ctx.cov['pool_size_histogram'] = {str(k): sum(1 for c, _, _, _ in rows if c['n0'] == k) for k in (0, 1, 2, 3, 4, 5, 9, 12, 16)}
     ctx.cov['cases_with_resize'] = sum(1 for c, _, _, _ in rows if any(o[0] == 'r' for pr in c['progs'] for o in pr))
     ctx.cov['cases_with_ring_fastpath'] = sum(1 for _, p, _, _ in rows if any(e[1] == 'pool.load.numRings' for e in p['events']))
     ctx.cov['cases_with_ring_overflow_fallback'] = sum(1 for _, p, _, _ in rows if any(e[1] == 'pool.ring.push' for e in p['events']))
     ctx.cov['cases_with_batched_ring_push'] = sum(1 for _, p, _, _ in rows if any(e[1] == 'pool.ring.push_batch' for e in p['events']))
     ctx.cov['cases_with_steal_ring_push'] = sum(1 for _, p, _, _ in rows if any(e[1] == 'pool.steal.push' and e[3] == 1 for e in p['events']))
+    ctx.cov['cases_with_cross_ring_steal'] = sum(1 for _, p, _, _ in rows if any(e[1] == 'pool.pop.steal' and e[3] == 1 for e in p['events']))
+    ctx.cov['cases_with_two_steal_groups'] = sum(1 for c, _, _, _ in rows if c['n0'] > 8)
     ctx.cov['cases_with_dtor_drain_pop'] = sum(1 for _, p, _, _ in rows if any(e[1] in ('pool.drain.ring', 'pool.drain.steal') and e[3] == 1 for e in p['events']))
     for c, p, o, v in rows[:2]:
         ctx.sample({'case': line_of(c)[:160], 'impl': o[:300], 'judge': v})
